@@ -102,6 +102,12 @@ func verifOptions(c verifCase) map[string]string {
 		switch f.Kind() {
 		case reflect.String, reflect.Int, reflect.Bool:
 			res[v.Type().Field(i).Name] = strings.TrimSpace(strings.Trim(jsonString(f), `"`))
+		case reflect.Slice:
+			// list-valued settings (the sFlow type filter): the elements as a JSON array
+			if f.Type().Elem().Kind() == reflect.Uint32 {
+				b, _ := json.Marshal(f.Interface())
+				res[v.Type().Field(i).Name] = string(b)
+			}
 		}
 	}
 	return res
